@@ -13,7 +13,7 @@
 //	setstat <mode> <sec> <nsec>         SetStat
 //	remode                              SetSizeEstimationMode(Links); SetSizeEstimationMode(Block)  (forces a recompute)
 //	stat                                -> est=<estimatedSize> n=<totalLinks> raw=<len(GetNode().RawData())>
-//	dynnew <threshold> <mode> <sec> <nsec> | dynadd <name> <cid> <tsize> | dynrm <name>
+//	dynnew <threshold> <mode> <sec> <nsec> | dynadd <name> <cid> <tsize> | dynrm <name> | dynfit <k> (threshold := block length + k)
 //	                                    a DynamicDirectory (block mode, per-directory HAMTShardingSize); these ops
 //	                                    always answer "ok" (not modelled), a monitor checks that while the directory
 //	                                    is still basic after an AddChild its block fits the threshold
@@ -214,9 +214,20 @@ func gen(r *vh.Rand, tier string, n int, emit func(vh.Case)) {
 			// DynamicDirectory in block mode with a small per-directory threshold (monitor only: while the
 			// directory is still a single block after an AddChild, that block must fit the threshold)
 			c.Ops = append(c.Ops, fmt.Sprintf("dynnew %d %s %s", r.Range(120, 700), modeTok(r), timeTok(r)))
+			held := map[string]cid.Cid{}
+			var heldNames []string
 			for j, m := 0, 10+r.Intn(40); j < m; j++ {
+				if len(heldNames) > 0 && r.Chance(1, 4) {
+					// put the threshold right at (or just above) the current block, then replace an entry by a
+					// target with the same CID (same length) and another Tsize class: the decision has to see
+					// the size of the block that results
+					nm := vh.Pick(r, heldNames)
+					c.Ops = append(c.Ops, "dynfit "+strconv.Itoa(r.Intn(4)),
+						fmt.Sprintf("dynadd %s %s %d", nm, vh.Hex(held[nm].Bytes()), vh.Pick(r, tsizes)))
+					continue
+				}
 				nm := vh.Hex([]byte("e" + strconv.Itoa(r.Intn(8))))
-				cc, ts := vh.Pick(r, cids), vh.Pick(r, tsizes)
+				cc, ts := vh.Pick(r, cids[:5]), vh.Pick(r, tsizes) // (the HAMT refuses identity digests > 128 bytes)
 				if r.Chance(1, 6) {
 					nm = boundaryName(r, len(cc.Bytes()), ts, false)
 				}
@@ -224,6 +235,10 @@ func gen(r *vh.Rand, tier string, n int, emit func(vh.Case)) {
 					c.Ops = append(c.Ops, "dynrm "+nm)
 				} else {
 					c.Ops = append(c.Ops, fmt.Sprintf("dynadd %s %s %d", nm, vh.Hex(cc.Bytes()), ts))
+					if _, ok := held[nm]; !ok {
+						heldNames = append(heldNames, nm)
+					}
+					held[nm] = cc
 				}
 			}
 			emit(c)
@@ -251,7 +266,7 @@ func gen(r *vh.Rand, tier string, n int, emit func(vh.Case)) {
 				}
 				cc := vh.Pick(r, cids)
 				if r.Chance(1, 3) {
-					nm = boundaryName(r, len(cc.Bytes()), ts, true)
+					nm = boundaryName(r, len(cc.Bytes()), ts, r.Chance(1, 8))
 				}
 				c.Ops = append(c.Ops, fmt.Sprintf("add %s %s %d", nm, vh.Hex(cc.Bytes()), ts))
 				used = append(used, nm)
@@ -458,13 +473,25 @@ func exec(c vh.Case, o *vh.Out) {
 			s.dyn = d
 			o.Kind("dyn")
 			o.Emit("ok")
+		case "dynfit":
+			if s.dyn != nil {
+				if nd, err := s.dyn.GetNode(); err == nil {
+					s.dynThr = len(nd.RawData()) + vh.Atoi(f[1])
+					s.dyn.SetHAMTShardingSize(s.dynThr)
+					o.Kind("dyn-fit")
+				}
+			}
+			o.Emit("ok")
 		case "dynadd", "dynrm":
 			if s.dyn != nil {
 				nm := string(vh.UnHex(f[1]))
 				if f[0] == "dynrm" {
 					_ = s.dyn.RemoveChild(ctx, nm)
 				} else if err := s.dyn.AddChild(ctx, nm, &stub{parseCid(f[2]), u64(f[3])}); err != nil {
-					o.Fail("dyn-add-rejected", "DynamicDirectory.AddChild failed: %v", err)
+					o.Kind("dyn-add-error") // HAMT-side refusal (not this property): stop following the directory
+					s.dyn = nil
+					o.Emit("ok")
+					break
 				}
 				nd, err := s.dyn.GetNode()
 				if err != nil {
